@@ -39,7 +39,7 @@ async def coercer(exception, error):
     return error
 
 
-ENGC = build(SDL, "c18c", custom_default_resolver=_res, query_cache_decorator=None, error_coercer=coercer)
+ENGC = build(SDL, "c18c", custom_default_resolver=_res, error_coercer=coercer)        # default query cache: failing documents are cached with their errors
 DATA = {"a": 1, "b": 2, "nn": 3}
 DATA["q"] = DATA
 
@@ -188,23 +188,28 @@ def c18_error_coercer(k: int, n: int) -> bool:
     post: _
     """
     k = pick(k, len(COERCER_DOCS))
-    PAYLOAD["n"] = n
-    del COERCED[:]; del LOG[:]
+    ENGC._cached_parse_and_validate_query.cache_clear()       # per-path determinism; within the path the cache is live
     data = dict(DATA)
     if k == 5:
         data["nn"] = None
-    ok, r = safe(lambda: env.run(ENGC.execute(COERCER_DOCS[k], initial_value=data)))
-    observe(r, len(COERCED))
-    if not ok or not isinstance(r, dict) or "data" not in r:
-        return verdict(False)
-    errs = r.get("errors")
-    if not COERCED:
-        return verdict(errs is None and NERR[k] == 0)
-    if errs is None or len(errs) != len(COERCED):
-        return verdict(False)
-    if NERR[k] is not None and len(errs) != NERR[k]:
-        return verdict(False)
-    for e in errs:
-        if e.get("coerced") != n or not isinstance(e.get("message"), str):
+    # the same request three times (the 2nd and 3rd hit the query cache): the coercer runs once per reported error EVERY time
+    for rep in range(3):
+        PAYLOAD["n"] = n + rep
+        del COERCED[:]; del LOG[:]
+        ok, r = safe(lambda: env.run(ENGC.execute(COERCER_DOCS[k], initial_value=data)))
+        observe(rep, r, len(COERCED))
+        if not ok or not isinstance(r, dict) or "data" not in r:
             return verdict(False)
+        errs = r.get("errors")
+        if not COERCED:
+            if not (errs is None and NERR[k] == 0):
+                return verdict(False)
+            continue
+        if errs is None or len(errs) != len(COERCED):
+            return verdict(False)
+        if NERR[k] is not None and len(errs) != NERR[k]:
+            return verdict(False)
+        for e in errs:
+            if e.get("coerced") != n + rep or not isinstance(e.get("message"), str):
+                return verdict(False)
     return verdict(True)
